@@ -11,7 +11,16 @@ ROOT = os.path.dirname(os.path.dirname(os.path.abspath(__file__)))
 
 def main():
     seed, n = sys.argv[1], sys.argv[2]
-    out = subprocess.run([os.path.join(ROOT, "harness/target/debug/dump_c04"), seed, n], capture_output=True, text=True).stdout
+    proc = subprocess.run([os.path.join(ROOT, "harness/target/debug/dump_c04"), seed, n], capture_output=True, text=True)
+    out = proc.stdout
+    # the dump must have run to completion: a helper that died half way (a panic or abort of the real
+    # code on the k-th system) must not look like "no violations in the first k systems"
+    if proc.returncode != 0 or f"DONE {n}" not in out.splitlines()[-3:]:
+        print("VIOLATION " + json.dumps({"property": "C04", "kind": "impl-violates-oracle", "signature": "helper-process-died",
+              "what": f"dump_c04 ended with status {proc.returncode} before finishing its {n} systems (a panic or abort on the real code): {proc.stderr[-300:]}",
+              "input": {"cmd": "harness/target/debug/dump_c04 " + seed + " " + n}}))
+        print("STATS " + json.dumps({"systems": 0, "helper_died": True}))
+        sys.exit(0)
     stats = {"systems": 0, "consistent": 0, "inconsistent": 0, "rank_deficient": 0, "ok": 0, "err": 0, "violations": 0, "unmentioned_variables_checked": 0, "max_deviation": 0.0}
     seen = set()
     def viol(what, sig, rec):
